@@ -16,7 +16,7 @@ RULE = (
     "refresh histories (length 1..6, repeats, zeros, pinned/unpinned) on bare MeshOperators; life cycles: solver solved twice, a sibling solver alive on the same device, device read back from a file. Non-trivial = at least one in-place refresh; "
     "distinct = scenario digests"
 )
-LIFECYCLES = {"p_prior": 0.07, "p_metres": 0.08, "p_reoriented": 0.08}  # shared object life cycles (scen.add_lifecycles) with their default rates
+LIFECYCLES = {"p_prior": 0.07, "p_metres": 0.08, "p_reoriented": 0.08, "p_guest": 0.2}  # shared object life cycles (scen.add_lifecycles) with their default rates
 BUDGET = {"quick": {"runs": 600, "chunk": 10}, "thorough": {"runs": 90000, "chunk": 20}}
 COMPONENTS = {"real": ["MeshOperators.set_link_exponents / build_*", "TDGLSolver.update refresh triggers"], "stub": ["wall clock"]}
 
